@@ -6,6 +6,7 @@ import (
 	"encoding/binary"
 	"net"
 	"sync"
+	"sync/atomic"
 	"time"
 
 	"verifharness/internal/adnlsrv"
@@ -25,7 +26,8 @@ type arrival struct {
 	l    *slink
 	id   []byte
 	at   time.Time
-	data []byte // the answer this server produces for it
+	data []byte      // the answer this server produces for it
+	sent atomic.Bool // the answer has been written at least once
 }
 
 type server struct {
@@ -130,7 +132,9 @@ func (sv *server) serve(c *adnlsrv.Conn, port string) {
 			scripted := call >= 1 && call <= sv.scripted
 			sv.mu.Unlock()
 			if !scripted && !sv.muted(port) {
-				sv.send(l, "srv.ans", a.id, hash8(a.data), frameAnswer(a.id, a.data))
+				if sv.send(l, "srv.ans", a.id, hash8(a.data), frameAnswer(a.id, a.data)) {
+					a.sent.Store(true)
+				}
 			}
 		}
 	}
